@@ -177,6 +177,28 @@ Definition server_install13 (ecdh_x ch_sh transcript : list N) :=
   (traffic_key (s_ap_secret m transcript), traffic_iv (s_ap_secret m transcript),
    traffic_key (c_ap_secret m transcript), traffic_iv (c_ap_secret m transcript)).
 
+(* ================= what the authentication signatures sign =================
+   The passive observer recomputes these byte strings from the records on the wire; the check then
+   verifies the signature seen on the wire over them with the certificate's public key by calling
+   sm2_verify directly -- so a change of the signed content made consistently on both ends of the
+   handshake code is noticed. *)
+Definition L_cv13_server : list N := [84; 76; 83; 32; 49; 46; 51; 44; 32; 115; 101; 114; 118; 101; 114; 32; 67; 101; 114; 116; 105; 102; 105; 99; 97; 116; 101; 86; 101; 114; 105; 102; 121]%N.   (* "TLS 1.3, server CertificateVerify" *)
+Definition L_cv13_client : list N := [84; 76; 83; 32; 49; 46; 51; 44; 32; 99; 108; 105; 101; 110; 116; 32; 67; 101; 114; 116; 105; 102; 105; 99; 97; 116; 101; 86; 101; 114; 105; 102; 121]%N.   (* "TLS 1.3, client CertificateVerify" *)
+(* tls13_sign_certificate_verify / tls13_verify_certificate_verify: 64 spaces, context string, 0,
+   Transcript-Hash(ClientHello .. Certificate); SM2 identity "TLSv1.3+GM+Cipher+Suite" *)
+Definition cv13_content (server : bool) (transcript : list N) : list N :=
+  repeat 32%N 64 ++ (if server then L_cv13_server else L_cv13_client) ++ [0%N] ++ sm3 transcript.
+(* TLS 1.2 ServerKeyExchange (tls_sign_server_ecdh_params): client_random, server_random, the 69-byte
+   ServerECDHParams (named_curve 3, curve id, 65, uncompressed point) *)
+Definition ske12_signed (cr sr params : list N) : list N := cr ++ sr ++ params.
+(* TLCP ServerKeyExchange: client_random, server_random, uint24 length, encryption certificate *)
+Definition u24 (n : nat) : list N := [N.of_nat (n / 256 / 256 mod 256); N.of_nat (n / 256 mod 256); N.of_nat (n mod 256)].
+Definition ske_tlcp_signed (cr sr enc_cert : list N) : list N := cr ++ sr ++ u24 (length enc_cert) ++ enc_cert.
+(* client CertificateVerify: TLCP signs the SM3 hash of the handshake messages so far, TLS 1.2 signs the
+   messages themselves (the tls_client_verify functions); both with the default SM2 identity *)
+Definition cv_tlcp_signed (transcript : list N) : list N := sm3 transcript.
+Definition cv12_signed (transcript : list N) : list N := transcript.
+
 (* ---- passive observer of a TLS 1.3 handshake ----
    ch, sh : the plaintext ClientHello / ServerHello records; srv, cli : the protected
    handshake records of server ({EncryptedExtensions} .. {Finished}) and client
@@ -212,6 +234,12 @@ Section Observe13.
     | fin :: prev_rev =>
       bytes_eqb fin (finished_msg (verify_data13 traffic_secret (before ++ concat (rev prev_rev))))
     end.
+
+  (* the opened flights themselves (handshake messages of server and client), for the signature check *)
+  Definition observe13_msgs (ecdh_x ch sh : list N) (srv cli : list (list N)) : list (list N) * list (list N) :=
+    let s := handshake_secrets13 ecdh_x (skipn 5 ch ++ skipn 5 sh) in
+    (match open_flight (traffic_key (s_hs s)) (traffic_iv (s_hs s)) 0 srv with Some m => m | None => [] end,
+     match open_flight (traffic_key (c_hs s)) (traffic_iv (c_hs s)) 0 cli with Some m => m | None => [] end).
 
   (* result: client app key/iv, server app key/iv, server flight ok, client flight ok *)
   Definition observe13 (ecdh_x ch sh : list N) (srv cli : list (list N))
